@@ -411,6 +411,7 @@ pub fn run_parent(family: Family, tier_name: &str) -> i32 {
             .arg(if tier.big { "1" } else { "0" })
             .arg(&out_file)
             .stdout(std::process::Stdio::null())
+            .stderr(std::process::Stdio::null())
             .spawn();
         match child {
             Ok(c) => children.push((c, out_file)),
@@ -566,7 +567,9 @@ pub fn gen_stats(family: Family, n: u32, big: bool, seed: u64, show: usize) {
             let e = sigs.entry(v.sig.clone()).or_insert((0, v.detail.clone()));
             e.0 += 1;
         }
-        if shown < show && (!vd.violations.is_empty() || show > 1000) {
+        let want_class = std::env::var("HV_SHOW_CLASS").ok();
+        let class_hit = want_class.as_deref().is_some_and(|w| vd.classes.contains(w));
+        if shown < show && (!vd.violations.is_empty() || show > 1000 || class_hit) {
             shown += 1;
             println!("---- case {}", serde_json::to_string(&case).unwrap());
             for l in View::new(&case, &run).excerpt(400) {
